@@ -2136,6 +2136,15 @@ int EGLPNUM_TYPENAME_ILLlib_chgsense (
 		case 'R':									/* Range constraint, we will set its upper bound
 																 once we call EGLPNUM_TYPENAME_QSchange_range, by default it 
 																 will be zero, i.e. an equation. */
+			if (qslp->rangeval == 0)
+			{
+				/* a problem with a range row has the array of ranges: the MPS
+				 * writer decides from it whether to write a RANGES section */
+				int r;
+				qslp->rangeval = EGLPNUM_TYPENAME_EGlpNumAllocArray (qslp->rowsize);
+				for (r = qslp->nrows; r--;)
+					EGLPNUM_TYPENAME_EGlpNumZero (qslp->rangeval[r]);
+			}
 			qslp->sense[rowlist[i]] = 'R';
 			EGLPNUM_TYPENAME_EGlpNumZero(qslp->lower[j]);
 			EGLPNUM_TYPENAME_EGlpNumZero(qslp->upper[j]);
